@@ -210,3 +210,19 @@ def transport(ctx, report):
                     report.check("U64", "build/seq", ok, "build() gives the record the builder's seq unmodified", "build() does not copy the builder's seq: %r" % seq, fn=f.path, sp=s.sp, config=cfg)
     else:
         report.violate("U64", "build/seq", "anchor Builder::build not found", config=cfg)
+    g = facts.fn("builder::Builder::<K>::seq")
+    if g is not None:
+        gan = ctx.an(g)
+        stored = False
+        for b in g.blocks:
+            if b.idx not in gan.cfg.succ:
+                continue
+            for i, s_ in enumerate(b.stmts):
+                if s_.kind == "assign" and s_.place.field_names() == ["seq"] and s_.place.proj and s_.place.proj[0] == "deref":
+                    tgt = gan.resolve_ref(s_.place.local)
+                    v = strip(gan.rvalue_expr(s_.rv, b.idx, i))
+                    if tgt is not None and tgt[0] == 1 and v.k == "param" and v.a[0] == 2 and all(gan.cfg.dominates(b.idx, x) or b.idx == x for x in gan.cfg.exits):
+                        stored = True
+        report.check("U64", "builder/seq-setter", stored, "Builder::seq(n) stores n as the builder's seq", "Builder::seq(n) does not store its argument in the builder's seq", fn=g.path, sp=g.span, config=cfg)
+    else:
+        report.violate("U64", "builder/seq-setter", "anchor Builder::seq not found", config=cfg)
